@@ -1,6 +1,8 @@
 """C14 - single-shot and in-place interfaces are equivalent to the composed operations.
 Differential monitor: the same scripted RNG bytes and inputs are given to both forms inside one
 session and the complete observable results (enc, ciphertext, tag, plaintext, error) are compared."""
+import re
+
 from lib import caselang as cl
 from lib import framework as fw
 from lib import gen
@@ -63,9 +65,19 @@ def build(env, per_cell):
                         fails.append(("flipped_tag", dict(ct=oa["ct"], tag=oa["tag"] + "^flip:%d" % rnd.randrange(0, 128)), {}))
                         fails.append(("short_tag", dict(ct=oa["ct"], tag=oa["tag"] + "^trunc:%d" % rnd.randrange(0, 16)), {}))
                     if kem == 0x0020:
-                        fails.append(("small_order_enc", dict(oa), dict(enc=rnd.choice(curves.X25519_SMALL_ORDER).hex())))
+                        bad_enc = rnd.choice(curves.X25519_SMALL_ORDER).hex()
+                        fails.append(("small_order_enc", dict(oa), dict(enc=bad_enc)))
                     else:
-                        fails.append(("invalid_enc", dict(oa), dict(enc="$ss%d.enc^flip:9" % k)))
+                        bad_enc = "$ss%d.enc^flip:9" % k
+                        fails.append(("invalid_enc", dict(oa), dict(enc=bad_enc)))
+                    # two causes of failure at once: which one wins must not depend on the form
+                    if api == "alloc":
+                        for L in (0, rnd.randrange(1, 16)):
+                            fails.append(("bad_enc_and_short_%d" % L, dict(ct="$ss%d.full^trunc:%d" % (k, L)), dict(enc=bad_enc)))
+                        fails.append(("wrong_key_and_short", dict(ct="$ss%d.full^trunc:%d" % (k, rnd.randrange(0, 16))), dict(skr="$kX.sk")))
+                    else:
+                        fails.append(("bad_enc_and_flipped_tag", dict(ct=oa["ct"], tag=oa["tag"] + "^flip:5"), dict(enc=bad_enc)))
+                    fails.append(("bad_enc_and_wrong_aad", dict(oa), dict(enc=bad_enc, aad="ffee")))
                     for name, oargs, chg in fails:
                         k3 = pid()
                         base = dict(mode=mode, skr="$kR.sk", enc="$ss%d.enc" % k, info=info)
@@ -171,7 +183,7 @@ def monitor(sess, extra):
             if a.ok() and b.ok():
                 va, vb = a.ret.get("pt"), b.ret.get("pt")
             if va != vb:
-                r.violation("C14:ss_open:%s" % path.split("_")[0], "single_shot_open%s differs from setup_receiver + open (%s path): %s vs %s" % (
+                r.violation("C14:ss_open:%s" % re.sub(r"_\d+$", "", path), "single_shot_open%s differs from setup_receiver + open (%s path): %s vs %s" % (
                     "_in_place_detached" if a.args.get("api") == "inplace" else "", path, _short(va), _short(vb)), sess, a)
                 continue
         elif cmpk == "seal_forms":
@@ -190,7 +202,7 @@ def monitor(sess, extra):
                 r.violation("C14:open_forms:%s" % path, "open() and open_in_place_detached() disagree on the same split (%s): %s vs %s" % (path, _short(va), _short(vb)), sess, a)
                 continue
         ok = a.ok()
-        r.distinct.add((sess.ids[0], sess.ids[2], mode, cmpk, path if not path.startswith("short_") else "short", a.args.get("api")))
+        r.distinct.add((sess.ids[0], sess.ids[2], mode, cmpk, re.sub(r"_\d+$", "", path), a.args.get("api")))
         r.counts["cmp:%s:%s" % (cmpk, "success" if ok else "failure")] += 1
     if pairs and not r.samples:
         d = pairs[sorted(pairs)[0]]
